@@ -24,8 +24,8 @@ from . import builders
 from . import common
 
 MAG_GUARD = 1e9
-FORMATS = ("memory", "weights_h5", "weights_tf", "full_h5", "keras",
-           "savedmodel")
+FORMATS = ("memory", "weights_h5", "weights_v3", "weights_tf", "full_h5",
+           "keras", "savedmodel")
 
 
 def json_norm(o):
@@ -44,7 +44,19 @@ def json_norm(o):
       return {"class_name": type(x).__name__, "config": x.get_config()}
     return repr(x)
 
-  return json.loads(json.dumps(o, default=default, sort_keys=True))
+  return _strip(json.loads(json.dumps(o, default=default, sort_keys=True)))
+
+
+# Keras bookkeeping that is not part of an object's own configuration.
+_BOOKKEEPING = ("build_config", "shared_object_id", "module", "registered_name")
+
+
+def _strip(o):
+  if isinstance(o, dict):
+    return {k: _strip(v) for k, v in o.items() if k not in _BOOKKEEPING}
+  if isinstance(o, list):
+    return [_strip(v) for v in o]
+  return o
 
 
 def config_diff(a, b, path=""):
@@ -97,8 +109,8 @@ class ModelWorld(engine.World):
                       ("crash", 1.0), ("reload", 0.6)):
         if p.chance(0.6):
           kinds.append((kind, w * p.log10_uniform(-0.4, 0.4)))
-      fmts = [f for f in ("memory", "weights_h5", "weights_tf", "full_h5",
-                          "keras") if p.chance(0.5)] or ["memory"]
+      fmts = [f for f in ("memory", "weights_h5", "weights_v3", "weights_tf",
+                          "full_h5", "keras") if p.chance(0.5)] or ["memory"]
       hard_p = 0.0
     else:
       n_events = p.integer(3, 16 if tier == "thorough" else 11)
@@ -175,6 +187,10 @@ class ModelWorld(engine.World):
     self.calls = []
     self.never_projected = set()
     self.restored_once = False
+    self.compiled = False
+    self.deferred = bool(getattr(self.builder, "deferred_strictness",
+                                 lambda sp: False)(spec))
+    self.dirty_since_finalize = True
     with ctx.sut("construct"):
       self.model = self.builder.build(spec)
     self._attach(fresh=True)
@@ -256,11 +272,18 @@ class ModelWorld(engine.World):
   def _num_values(self, s, f, n, allow_missing=True):
     kps = f["keypoints"]
     lo, hi = kps[0], kps[-1]
+    if f.get("integral"):
+      vals = s.g.integers(int(lo), int(hi) + 1, size=n).astype(np.float32)
+      if f.get("default") is not None:
+        vals = np.where(s.g.random(n) < 0.15, np.float32(f["default"]), vals)
+      return vals.astype(np.float32)
     r = s.g.random(n)
     u = s.g.uniform(lo, hi, size=n)
     on_kp = np.asarray(kps)[s.g.integers(0, len(kps), size=n)]
     below = lo - s.g.uniform(0.0, 2.0, size=n)
     above = hi + s.g.uniform(0.0, 2.0, size=n)
+    if f.get("strict_range"):
+      below, above = u, u
     out = np.where(r < 0.45, u, np.where(r < 0.65, on_kp, np.where(
         r < 0.75, below, np.where(r < 0.85, above, u))))
     if f["missing"] is not None:
@@ -456,10 +479,12 @@ class ModelWorld(engine.World):
     with ctx.sut("optimizer"):
       opt = self.pool.get(ev["family"], ev["opt"], lr)
     gv = [(tf.constant(grads[i]), self.tvars[i]) for i in idx]
+    ctx.log("grads", idx, *[grads[i] for i in idx])
     self.calls = []
     with ctx.sut("apply_gradients"):
       opt.apply_gradients(gv)
     ctx.steps += 1
+    self.dirty_since_finalize = True
     ctx.token("step:%s:%s:%s:%d/%d:%s" % (ev["family"][0], ev["opt"],
                                           ev["order"][0], len(idx),
                                           len(self.tvars), ev["grad"]))
@@ -484,6 +509,7 @@ class ModelWorld(engine.World):
       opt = common.make_optimizer("new", ev["opt"], float(ev["lr"]))
       self.model.compile(optimizer=opt, loss="mse", run_eagerly=bool(
           ev["eager"]))
+    self.compiled = True
     self.calls = []
     with ctx.sut("fit"):
       self.model.fit(x, y, batch_size=int(ev["batch"]), epochs=1, verbose=0,
@@ -496,6 +522,7 @@ class ModelWorld(engine.World):
       self.kfl_state[k]["sign_seen"] = np.sign(layer.scale.numpy()).astype(
           np.int8)
     self.never_projected.clear()
+    self.dirty_since_finalize = True
     ctx.fire("keras_fit")
     ctx.token("fit:%s:%d" % (ev["opt"], int(ev["eager"])))
 
@@ -516,6 +543,7 @@ class ModelWorld(engine.World):
             self.kfl_state[k]["sign_seen"] = sign
     if n:
       ctx.fire("finalize")
+    self.dirty_since_finalize = False
     ctx.token("finalize")
 
   # -- checkpoints ----------------------------------------------------------
@@ -552,6 +580,10 @@ class ModelWorld(engine.World):
 
   def _ev_checkpoint(self, ev, ctx):
     fmt = ev["fmt"]
+    if fmt == "weights_v3" and self.compiled:
+      # Keras' own v3 weights files also hold compile-time metric variables and
+      # only load into an identically compiled model; not a tfl concern.
+      fmt = "weights_h5"
     cid = len(self.images)
     es = rng_lib.Stream(ev["seed"], "ckpt")
     d = self._scratch()
@@ -578,6 +610,9 @@ class ModelWorld(engine.World):
       path = os.path.join(d, "ckpt%d" % cid)
       with ctx.sut("save:" + fmt):
         if fmt == "weights_h5":
+          path += "_w.h5"
+          self.model.save_weights(path)
+        elif fmt == "weights_v3":
           path += ".weights.h5"
           self.model.save_weights(path)
         elif fmt == "weights_tf":
@@ -606,7 +641,7 @@ class ModelWorld(engine.World):
     co = self._custom_objects()
     fmt = img["fmt"]
     with ctx.sut("restore:" + fmt):
-      if fmt in ("memory", "weights_h5", "weights_tf"):
+      if fmt in ("memory", "weights_h5", "weights_v3", "weights_tf"):
         model = keras.models.model_from_json(img["json"], custom_objects=co)
         if fmt == "memory":
           model.set_weights(img["weights"])
@@ -649,6 +684,8 @@ class ModelWorld(engine.World):
       self._skew_globals(es.sub("skew"), ctx)
     model = self._load(img, ctx)
     self.model = model
+    self.compiled = bool(getattr(model, "optimizer", None) is not None and
+                         img["fmt"] in ("full_h5", "keras", "savedmodel"))
     self._attach(fresh=False, ref=img["ref"])
     ctx.restarts += 1
     ctx.fire("crash_" + ev["mode"])
@@ -666,7 +703,8 @@ class ModelWorld(engine.World):
       return
     img = alive[-1]
     with ctx.sut("reload:" + img["fmt"]):
-      if img["fmt"] in ("weights_h5", "weights_tf"):
+      if img["fmt"] in ("weights_h5", "weights_tf") or (
+          img["fmt"] == "weights_v3" and not self.compiled):
         self.model.load_weights(img["path"])
       else:
         self.model.set_weights(img["weights"])
@@ -742,13 +780,22 @@ class ModelWorld(engine.World):
       self.stop_requested = True
       ctx.count("guard:magnitude")
       return []
+    if self.prop == "C11" and ev["kind"] == "construct":
+      out.extend(self._check_objects(ctx))
     if pending is not None and self.prop == "C11":
       out.extend(self._compare_restore(pending[0], pending[1], ctx, ev))
+      if not out and ev["kind"] == "crash":
+        out.extend(self._check_objects(ctx))
       pending[0]["restored_before"] = True
     elif pending is not None:
       pending[0]["restored_before"] = True
     if self.prop == "C03":
-      out.extend(self._check_shape(ctx, ev, S))
+      if self.deferred and self.dirty_since_finalize:
+        # monotonic_at_every_step=False: strictness is documented to hold only
+        # after finalize_constraints(); the obligation is inactive until then.
+        ctx.count("check:inactive")
+      else:
+        out.extend(self._check_shape(ctx, ev, S))
     return out
 
   def _stale_kfl(self):
@@ -771,14 +818,14 @@ class ModelWorld(engine.World):
     ctx.log("probe", y.astype(np.float32))
     ctx.count("probe_points", int(y.shape[0]))
     ctx.count("check:active")
+    conds_common = self._structural_conditions(ctx)
     if not np.all(np.isfinite(y)):
-      return [engine.Violation("nonfinite_output", {"after": ev["kind"]})]
+      r = int(np.argmax(~np.isfinite(y).all(axis=1)))
+      return [engine.Violation("nonfinite_output", {
+          "after": ev["kind"], "x": [c[r, 0] for c in inputs]},
+                               conditions=conds_common)]
     tol = 1e-5 * (1.0 + S + float(np.max(np.abs(y))))
     out = []
-    conds_common = []
-    if self._stale_kfl():
-      conds_common.append("stale_kernel_projection")
-      ctx.reach("stale_sign_present")
     # Output bounds for every input, missing values included.
     if self.out_min is not None or self.out_max is not None:
       lo_v = hi_v = -np.inf
@@ -813,6 +860,8 @@ class ModelWorld(engine.World):
         if kind == "pair":
           cls = "cat_order"
           conds += self._cat_conditions(f)
+          if self.spec.get("model", {}).get("structure") == "rtl":
+            conds.append("rtl_categorical_feature")
         out.append(engine.Violation(
             cls, {
                 "feature": f["name"],
@@ -825,6 +874,41 @@ class ModelWorld(engine.World):
             }, margin=worst, tol=tol, conditions=conds))
         break
     return out
+
+  def _structural_conditions(self, ctx):
+    """Conditions under which a recorded known finding may apply."""
+    tfl = self.tfl
+    conds = []
+    if self._stale_kfl():
+      conds.append("stale_kernel_projection")
+      ctx.reach("stale_sign_present")
+    for layer in self._all_layers():
+      if not isinstance(layer, tfl.layers.PWLCalibration):
+        continue
+      if layer.input_keypoints_type == "learned_interior":
+        logits = layer.interpolation_logits.numpy().astype(np.float32)
+        e = np.exp(logits - logits.max(axis=1, keepdims=True))
+        lengths = (e / e.sum(axis=1, keepdims=True)).astype(np.float32)
+        if np.any(lengths < np.finfo(np.float32).tiny):
+          if "pwl_zero_length_piece" not in conds:
+            conds.append("pwl_zero_length_piece")
+            ctx.reach("pwl_zero_length_piece")
+      mono = layer.monotonicity not in (0, "none", None)
+      conv = layer.convexity not in (0, "none", None)
+      if mono and conv and (layer.output_min is not None or
+                            layer.output_max is not None):
+        k = layer.kernel.numpy().astype(np.float64)
+        outs = np.cumsum(k, axis=0)
+        eps = 1e-4 * (1.0 + float(np.max(np.abs(outs))))
+        bad = False
+        if layer.output_min is not None and np.min(outs) < layer.output_min - eps:
+          bad = True
+        if layer.output_max is not None and np.max(outs) > layer.output_max + eps:
+          bad = True
+        if bad and "pwl_convex_bounds_unmet" not in conds:
+          conds.append("pwl_convex_bounds_unmet")
+          ctx.reach("pwl_convex_bounds_unmet")
+    return conds
 
   def _cat_conditions(self, f):
     """Structural conditions for categorical-ordering violations."""
@@ -849,6 +933,94 @@ class ModelWorld(engine.World):
           break
     return conds
 
+  # ------------------------------------------- C11 in-memory object round trip
+  def _objects(self):
+    """(label, object, kind, argument) for every config-bearing object."""
+    out = []
+    mc = getattr(self.model, "model_config", None)
+    if mc is not None:
+      out.append(("model_config", mc, "config", None))
+      for fc in mc.feature_configs or []:
+        out.append(("feature_config:" + fc.name, fc, "config", None))
+        for sub in (fc.reflects_trust_in or []) + (fc.dominates or []) + (
+            fc.regularizer_configs or []):
+          out.append(("nested_config", sub, "config", None))
+    for layer in self._all_layers():
+      if not type(layer).__module__.startswith("tensorflow_lattice"):
+        continue
+      out.append(("layer:" + layer.name, layer, "layer", None))
+      for attr in ("kernel_initializer", "bias_initializer",
+                   "scale_initializer"):
+        init = getattr(layer, attr, None)
+        if init is not None and hasattr(init, "get_config") and not isinstance(
+            init, str):
+          out.append(("%s.%s" % (layer.name, attr), init, "initializer", None))
+      for attr in ("kernel_regularizer", "bias_regularizer"):
+        regs = getattr(layer, attr, None)
+        if isinstance(regs, (list, tuple)):
+          for r in regs:
+            if hasattr(r, "get_config"):
+              kern = getattr(layer, attr.split("_")[0], None)
+              out.append(("%s.%s" % (layer.name, attr), r, "regularizer", kern))
+      for v in layer.weights:
+        c = v.constraint
+        if isinstance(c, common.ConstraintProxy):
+          c = c.real
+        if c is not None and type(c).__module__.startswith(
+            "tensorflow_lattice"):
+          out.append(("%s.constraint(%s)" % (layer.name, v.name), c,
+                      "constraint", v))
+    return out
+
+  def _check_objects(self, ctx):
+    out = []
+    co = self._custom_objects()
+    tf = self.tf
+    for label, obj, kind, arg in self._objects():
+      cls = type(obj)
+      try:
+        with ctx.sut("objects:" + label):
+          c1 = obj.get_config()
+          if kind == "config":
+            obj2 = cls.from_config(json_norm(c1), custom_objects=co)
+          elif kind == "layer":
+            with self.keras.utils.custom_object_scope(co):
+              obj2 = cls.from_config(c1)
+          else:
+            obj2 = cls.from_config(c1)
+          c2 = obj2.get_config()
+      except engine.SutError as e:
+        out.append(engine.Violation(
+            "exception:%s@object_from_config" % e.exc_type,
+            {"object": label, "class": cls.__name__, "text": e.exc_text}))
+        continue
+      ctx.count("objects_round_tripped")
+      diffs = config_diff(json_norm(c1), json_norm(c2))
+      if diffs:
+        out.append(engine.Violation("object_config_drift", {
+            "object": label, "class": cls.__name__, "diffs": diffs}))
+        continue
+      try:
+        with ctx.sut("objects_apply:" + label):
+          if kind == "constraint":
+            a = np.asarray(obj(tf.identity(arg)))
+            b = np.asarray(obj2(tf.identity(arg)))
+          elif kind == "regularizer" and arg is not None:
+            a = np.asarray(obj(tf.identity(arg)))
+            b = np.asarray(obj2(tf.identity(arg)))
+          else:
+            continue
+      except engine.SutError as e:
+        out.append(engine.Violation(
+            "exception:%s@object_apply" % e.exc_type,
+            {"object": label, "class": cls.__name__, "text": e.exc_text}))
+        continue
+      if a.shape != b.shape or not np.allclose(a, b, rtol=1e-6, atol=1e-7,
+                                               equal_nan=True):
+        out.append(engine.Violation("object_behaviour_differs", {
+            "object": label, "class": cls.__name__}))
+    return out
+
   # ---------------------------------------------------- C11 restore oracle
   def _compare_restore(self, img, hard, ctx, ev):
     out = []
@@ -871,9 +1043,11 @@ class ModelWorld(engine.World):
     with ctx.sut("call"):
       y = self._forward(img["probe_x"])
     ctx.log("restore_probe", y.astype(np.float32))
-    err = np.abs(y - img["probe_y"])
-    lim = 1e-6 * (1.0 + np.abs(img["probe_y"]))
-    if not np.all(np.isfinite(y)) or np.any(err > lim):
+    both_nan = np.isnan(y) & np.isnan(img["probe_y"])
+    err = np.where(both_nan, 0.0, np.abs(y - img["probe_y"]))
+    err = np.where(np.isnan(err), np.inf, err)
+    lim = 1e-6 * (1.0 + np.abs(np.nan_to_num(img["probe_y"])))
+    if np.any(err > lim):
       r = int(np.argmax((err - lim).max(axis=1)))
       out.append(engine.Violation(
           "outputs_differ", {
@@ -906,8 +1080,10 @@ class ModelWorld(engine.World):
           hy = np.asarray(hard["y"], dtype=np.float64).reshape(
               img["probe_y"].shape)
           ctx.log("hard_probe", hy.astype(np.float32))
-          herr = np.abs(hy - img["probe_y"])
-          if not np.all(np.isfinite(hy)) or np.any(herr > lim):
+          hnan = np.isnan(hy) & np.isnan(img["probe_y"])
+          herr = np.where(hnan, 0.0, np.abs(hy - img["probe_y"]))
+          herr = np.where(np.isnan(herr), np.inf, herr)
+          if np.any(herr > lim):
             out.append(engine.Violation(
                 "outputs_differ", {"hard": True, "fmt": img["fmt"]},
                 margin=float(np.max(herr)), tol=float(np.max(lim))))
@@ -916,6 +1092,16 @@ class ModelWorld(engine.World):
                 "hard": True, "fmt": img["fmt"], "why": hard.get(
                     "assert_why")}))
     return out
+
+  def classify_exception(self, vs, ev, err, ctx):
+    """Attaches structural conditions to exceptions raised by the SUT."""
+    try:
+      conds = self._structural_conditions(ctx) if self.model is not None else []
+    except Exception:  # pylint: disable=broad-except
+      conds = []
+    for v in vs:
+      v.conditions = list(conds)
+    return vs
 
   def nontrivial(self, ctx):
     if self.prop == "C11":
